@@ -217,7 +217,8 @@ def main(tier):
     vlib.ensure_built("runner")
     ev = vlib.Evidence(PID, tier)
     ev.cov["rule"] = RULE
-    ev.assumptions = ["worker threads live for the whole runner process, i.e. across cases and across every engine of a case (thread-local state of dead engines is therefore still around)",
+    ev.assumptions = ["the four threads of a history live from its first step to its end, i.e. across every engine of the history (thread-local state of its dead engines is therefore still around); "
+                      "they are ended before the next history so that every reported history is self-contained",
                       "operations of one history are executed one at a time (concurrency is C13's subject)"]
     n = 1600 if tier == "quick" else 30000
     failures = hyp.run("c14", ev, tier, n)
